@@ -190,16 +190,6 @@ theorem codes_match_spec :
     clientSuccessCodes = [Spec.ReqReply.primaryOwner.code, Spec.ReqReply.alreadyOwner.code] ∧
     failedReason nameInQueue = 1 ∧ failedReason nameInUse = 2 := by decide
 
-/-- Frame (regenerated from the AST of txdbus/*.py on every run; a use of `busNames` / `clients`
-in any other function makes the translator fail): the only functions that write a name table are
-the ones the model mirrors - the constructors, `dbus_RequestName`, `dbus_ReleaseName`
-(`clientDisconnected` through it) - and the only writers of `Bus.clients` are `clientConnected`
-and `clientDisconnected`.  All other bus traffic is `Op.other`. -/
-theorem frame_only_modelled_writers :
-    busNamesWriters = ["Bus.__init__", "Bus.dbus_ReleaseName", "Bus.dbus_RequestName",
-                       "BusProtocol.connectionAuthenticated"] ∧
-    clientsWriters = ["Bus.__init__", "Bus.clientConnected", "Bus.clientDisconnected"] := ⟨rfl, rfl⟩
-
 /-- The bus decodes exactly the three booleans `requestBusName` encoded. -/
 theorem client_flags_roundtrip (a r d : Bool) :
     decodeFlags (clientFlags a r d) = { allow := a, replace := r, dnq := d } := by
@@ -294,7 +284,6 @@ end Txdbus.Bus
 #print axioms Txdbus.Bus.run_refines_spec
 #print axioms Txdbus.Bus.spec_exec_sound
 #print axioms Txdbus.Bus.codes_match_spec
-#print axioms Txdbus.Bus.frame_only_modelled_writers
 #print axioms Txdbus.Bus.client_flags_roundtrip
 #print axioms Txdbus.Bus.client_success_iff_owner
 #print axioms Txdbus.Bus.prefix_request_without_replace_not_queued
